@@ -71,6 +71,9 @@ def legacy_suites(chk, rng, R, known, n, full=False):
                     return "written manifest still has a %r key" % k
         return None
 
+    for i, c in enumerate(docs):
+        if i % 3:
+            c["pre"] = ("failed", "add")[i % 3 - 1]          # the loading object has a history (ops_images.impl_load)
     core.differential(chk, "docs_legacy:images", docs, "load_images", model_cases=[c["doc"] for c in docs],
                       impl_fn="impl_load_legacy_images", nontrivial=lambda c, r: r[0] == "ok" and any("src" in a for a in c["doc"]["payload"]["images"].values()),
                       oracle=oracle_img, normalise=(model_load_images_norm if full else (lambda r: placement_only(model_load_images_norm(r)))))
@@ -98,6 +101,9 @@ def legacy_suites(chk, rng, R, known, n, full=False):
                             return "source RPM %s was not re-filed under %s/%s" % (srpm, v, a)
         return None
 
+    for i, c in enumerate(rdocs):
+        if i % 2:
+            c["pre"] = "failed"
     core.differential(chk, "docs_legacy:rpms", rdocs, "load_rpms", model_cases=[c["doc"] for c in rdocs],
                       impl_fn="impl_load_rpms", nontrivial=lambda c, r: r[0] == "ok" and len(r[1][1]) >= 1, oracle=oracle_rpms,
                       normalise=(lambda r: (lambda x: x if full else placement_only(x))(
